@@ -561,6 +561,10 @@ impl<E: Effect, R: CommandReceiver<E>, S: EventSender<E>> Worker<E, R, S> {
     ) -> Result<(), EnvironmentError> {
         let mut has_any_result = false;
 
+        // This is (at the latest) the answer to the awaiter's initial query: its select may scan
+        // its sources from now on.
+        self.executor.initial_await_answered(awaiter);
+
         // Process each result and update awaiter
         for (awaited, result_opt) in results {
             if let Some(result) = result_opt {
